@@ -123,7 +123,7 @@ def run(ctx):
         ok = q in cleared or q in NEED_NOT_CLEAR
         ctx.ob('C14.R4', f'table:{q}', m.where(st), 'a run-time memo table is cleared by clear_caches() or reasoned exempt',
                ok, f'written by {sorted({qualname_of(fn) for _, fn, _ in runtime[q]})}; not cleared, not in the exemption table')
-    ctx.floor('C14.R4', len(runtime), 10, 'run-time tables written from functions')
+    ctx.floor('C14.R4', len(runtime), 9, 'run-time tables written from functions')
 
     # ---- R2 ----------------------------------------------------------------------
     ctx.rule('C14.R2', 'classification of every memo key: the value itself (equality) is fine; a key derived through '
